@@ -47,7 +47,7 @@ func TestZsimC04Engine(t *testing.T) {
 	})
 }
 
-var c04eKey *rsa.PrivateKey
+var c04eKey, c04eKey2 *rsa.PrivateKey
 
 func c04eToken(secret string, claims map[string]any) string {
 	enc := base64.RawURLEncoding.EncodeToString
@@ -66,6 +66,7 @@ func c04EngineRun(r *zsim.Run) {
 	o := r.Ops
 	if c04eKey == nil {
 		c04eKey, _ = rsa.GenerateKey(rand.Reader, 1024)
+		c04eKey2, _ = rsa.GenerateKey(rand.Reader, 1024)
 	}
 	dir, err := os.MkdirTemp(os.Getenv("ZSIM_TMP"), "c04e-")
 	if err != nil {
@@ -75,6 +76,13 @@ func c04EngineRun(r *zsim.Run) {
 	defer os.RemoveAll(dir)
 	keyFile := filepath.Join(dir, "priv.pem")
 	os.WriteFile(keyFile, pem.EncodeToMemory(&pem.Block{Type: "RSA PRIVATE KEY", Bytes: x509.MarshalPKCS1PrivateKey(c04eKey)}), 0o600)
+	// a second configured key: in a file of another name, or in a file of the same name in another directory
+	keyFile2 := filepath.Join(dir, "priv2.pem")
+	if o.Intn(2) == 0 {
+		os.Mkdir(filepath.Join(dir, "app2"), 0o700)
+		keyFile2 = filepath.Join(dir, "app2", "priv.pem")
+	}
+	os.WriteFile(keyFile2, pem.EncodeToMemory(&pem.Block{Type: "RSA PRIVATE KEY", Bytes: x509.MarshalPKCS1PrivateKey(c04eKey2)}), 0o600)
 	cur, prev := "engine-current", ""
 	if o.Intn(2) == 0 {
 		prev = "engine-previous"
@@ -104,10 +112,10 @@ func c04EngineRun(r *zsim.Run) {
 		ng.addRoutes(g2)
 		ng.addRoutes(g1)
 	}
-	ng.addRoutes(featuredRoutes{signature: signatureSetting{enabled: true, SignatureConfig: SignatureConfig{Strict: strict, Expire: tolerance, PrivateKeys: []PrivateKeyConfig{{Fingerprint: "fp1", KeyFile: keyFile}}}}, routes: []Route{{Method: http.MethodPost, Path: "/signed", Handler: mk("signed")}}})
+	ng.addRoutes(featuredRoutes{signature: signatureSetting{enabled: true, SignatureConfig: SignatureConfig{Strict: strict, Expire: tolerance, PrivateKeys: []PrivateKeyConfig{{Fingerprint: "fp1", KeyFile: keyFile}, {Fingerprint: "fp2", KeyFile: keyFile2}}}}, routes: []Route{{Method: http.MethodPost, Path: "/signed", Handler: mk("signed")}}})
 	ng.addRoutes(featuredRoutes{routes: []Route{{Method: http.MethodGet, Path: "/open", Handler: mk("open")}}})
 	// a group with both protections: the token is looked at first (401), the signature second (403)
-	ng.addRoutes(featuredRoutes{jwt: jwtSetting{enabled: true, secret: cur, prevSecret: prev}, signature: signatureSetting{enabled: true, SignatureConfig: SignatureConfig{Strict: strict, Expire: tolerance, PrivateKeys: []PrivateKeyConfig{{Fingerprint: "fp1", KeyFile: keyFile}}}}, routes: []Route{{Method: http.MethodPost, Path: "/both", Handler: mk("both")}}})
+	ng.addRoutes(featuredRoutes{jwt: jwtSetting{enabled: true, secret: cur, prevSecret: prev}, signature: signatureSetting{enabled: true, SignatureConfig: SignatureConfig{Strict: strict, Expire: tolerance, PrivateKeys: []PrivateKeyConfig{{Fingerprint: "fp1", KeyFile: keyFile}, {Fingerprint: "fp2", KeyFile: keyFile2}}}}, routes: []Route{{Method: http.MethodPost, Path: "/both", Handler: mk("both")}}})
 	rt := router.NewRouter()
 	if err := ng.bindRoutes(rt); err != nil {
 		r.Failf("bind", "%v", err)
@@ -137,7 +145,11 @@ func c04EngineRun(r *zsim.Run) {
 			m := hmac.New(sha256.New, key)
 			m.Write([]byte(content))
 			sig := base64.StdEncoding.EncodeToString(m.Sum(nil))
-			enc, _ := rsa.EncryptPKCS1v15(rand.Reader, &c04eKey.PublicKey, []byte(fmt.Sprintf("key=%s; time=%s; type=0", base64.StdEncoding.EncodeToString(key), ts)))
+			pub, fp := &c04eKey.PublicKey, "fp1"
+			if o.Intn(2) == 0 {
+				pub, fp = &c04eKey2.PublicKey, "fp2"
+			}
+			enc, _ := rsa.EncryptPKCS1v15(rand.Reader, pub, []byte(fmt.Sprintf("key=%s; time=%s; type=0", base64.StdEncoding.EncodeToString(key), ts)))
 			tamper := zsim.Pick(o, "none", "none", "body", "query", "missing")
 			q := "a=1"
 			if tamper == "body" {
@@ -148,7 +160,7 @@ func c04EngineRun(r *zsim.Run) {
 			}
 			rq := httptest.NewRequest(http.MethodPost, "http://sim"+path+"?"+q, bytes.NewReader([]byte(body)))
 			if tamper != "missing" {
-				rq.Header.Set(httpx.ContentSecurity, fmt.Sprintf("fingerprint=fp1; secret=%s; signature=%s", base64.StdEncoding.EncodeToString(enc), sig))
+				rq.Header.Set(httpx.ContentSecurity, fmt.Sprintf("fingerprint=%s; secret=%s; signature=%s", fp, base64.StdEncoding.EncodeToString(enc), sig))
 			}
 			return rq, !strict || (tamper == "none" && off >= -tol && off <= tol)
 		}
